@@ -241,18 +241,29 @@ func runExecReg(cfg *runCfg) {
 		meta.Count("objects", fmt.Sprint(no))
 		meta.Count("ops-per-case", bucket(len(steps)))
 		meta.Seen(sxString(c), multi)
-		// release whatever still sits in an action so that the goroutines of this scenario end
-		act.mu.Lock()
-		var left []*entity.TaskInstance
-		for t := range act.started {
-			left = append(left, t)
-		}
-		act.mu.Unlock()
-		for _, t := range left {
-			select {
-			case act.rel[t] <- false:
-			case <-time.After(time.Second):
+		// release whatever still sits in an action (deliveries waiting behind it then run into the next action) until
+		// the executor has drained, and close it: otherwise the goroutines of every scenario stay behind and the
+		// census of the later scenarios has to wade through them
+		for round := 0; round < 64; round++ {
+			act.mu.Lock()
+			var left []*entity.TaskInstance
+			for t := range act.started {
+				left = append(left, t)
 			}
+			act.mu.Unlock()
+			if len(left) == 0 {
+				break
+			}
+			for _, t := range left {
+				select {
+				case act.rel[t] <- false:
+				case <-time.After(time.Second):
+				}
+			}
+			settle()
+		}
+		if atomic.LoadInt64(&blocked) == 0 {
+			exe.Close()
 		}
 	}
 	meta.Cases = cw.N
